@@ -43,6 +43,8 @@ def seed_table():
         if st:
             missed += 1
             caught += " **Strengthening:** " + st.replace("|", "/")
+        if m.get("superseded_note"):
+            caught += " **Now:** " + m["superseded_note"].replace("|", "/")
         rows.append("| `%s` | %s | %s |" % (n, what, caught))
     per_round = {}
     for n in names:
